@@ -479,7 +479,7 @@ def main():
         log("UNDECIDED property=%s reason=no-pairs" % prop)
         sys.exit(2)
     os.makedirs(os.path.join(BUILD, prop), exist_ok=True)
-    if not only:
+    if not only and os.path.realpath(REPO) == "/repo":
         shutil.rmtree(os.path.join(VERIF, "replay", prop), ignore_errors=True)
     # heavy pairs first
     order = sorted(pairs, key=lambda p: -p.get("timeout", 120))
@@ -490,7 +490,7 @@ def main():
     findings = load_findings()
     known = [f for f in findings.get("findings", []) if f["property"] == prop]
     violations, undecided, known_hits = [], [], []
-    rdir = os.path.join(VERIF, "replay", prop)
+    rdir = os.path.join(VERIF, "replay", prop) if os.path.realpath(REPO) == "/repo" else os.path.join(BUILD, "replay_scratch", prop)
     for r in results:
         if r["status"] == "failed":
             for f in r["failed"]:
@@ -578,8 +578,12 @@ def main():
         "wall_s": round(time.time() - t0, 2),
         "violations": nviol,
     }
-    os.makedirs(os.path.join(VERIF, "evidence"), exist_ok=True)
-    json.dump(ev, open(os.path.join(VERIF, "evidence", prop + ".json"), "w"), indent=1)
+    # the evidence file of record is written only by a complete run against /repo itself; partial (--only) runs and runs
+    # against a scratch copy (VC_REPO, used to try seeded changes) leave their record under .build/
+    official = (only is None and os.path.realpath(REPO) == "/repo")
+    evdir = os.path.join(VERIF, "evidence") if official else os.path.join(BUILD, "evidence_partial")
+    os.makedirs(evdir, exist_ok=True)
+    json.dump(ev, open(os.path.join(evdir, prop + ".json"), "w"), indent=1)
     log("%s %s: pairs=%d obligations=%d discharged=%d bounded=%d/%d violations=%d undecided=%d wall=%.1fs" %
         (prop, tier, len(results), ob, dis, bdis, bob, nviol, len(undecided), time.time() - t0))
     if nviol:
